@@ -8,6 +8,7 @@ From Flocq Require Import Raux Generic_fmt Round_NE.
 From PR Require Import Base.Num Base.RNum Base.F64 Base.ZX Base.Slice Model.Grid Model.CropBase Model.Partition Model.Crop
      Gen.GenSubset Gen.GenC11 Proofs.Grid_real Proofs.C11_crop Proofs.C11_same_crs Proofs.C11_swath
      Proofs.C11_gen Proofs.C11_history Proofs.C11_gas Proofs.C19_divisible.
+From PR Require Import Base.Imp Model.CropImp Gen.GenC11imp Proofs.C11_imp.
 Import ListNotations.
 Open Scope R_scope.
 
@@ -199,3 +200,35 @@ Proof. exact gas_diff_slices_keep. Qed.
 Print Assumptions C11_gas_diff_slices_keep_vertices.
 Example C11_gas_diff_ex : gas_diff_slices 0 [252]%Z 3 [40]%Z 400 100 (Some 2%Z) = (mk_slice 0 254, mk_slice 3 41).
 Proof. exact gas_diff_ex. Qed.
+
+(* ---- wave 3: the loops of the SwathSlicer, regenerated from /repo by tools/py2coq_imp.py (Gen/GenC11imp.v) ---- *)
+
+(* SwathSlicer._assemble_slices: the code returns the model's hull (col_slice, line_slice) and raises exactly on an empty list *)
+Theorem C11_assemble_slices_code_is_model : forall boxes,
+  value_of (imp_assemble_slices boxes) = match assemble boxes with Some r => COk r | None => CRaised end.
+Proof. exact imp_assemble_slices_value. Qed.
+Print Assumptions C11_assemble_slices_code_is_model.
+(* SwathSlicer.get_slices_from_polygon: for any (polygon, box) pairs and any intersection oracle the code returns the hull of the
+   boxes whose polygon intersects, in enumeration order, and raises IncompatibleAreas exactly when none does *)
+Theorem C11_swath_get_slices_code_is_model : forall (P : Type) (hits : P -> P -> bool) (p0 poly : P) cps,
+  value_of (imp_swath_slices_from_polygon hits p0 poly cps)
+  = match assemble (hit_boxes hits poly cps) with Some r => COk r | None => CRaised end.
+Proof. exact @imp_swath_slices_value. Qed.
+Print Assumptions C11_swath_get_slices_code_is_model.
+(* _get_chunk_bboxes_for_swath_to_crop + get_slices_from_polygon, code against the model the theorems C11_swath_* are about:
+   for any chunking, any oracles (cropping, edge extraction, hstack, intersects) and any chunk polygons the stored slices are
+   chunk_boxes and the result is swath_slices for the hit bits *)
+Theorem C11_swath_code_is_model : forall (SW E P : Type) (sw_chunks : SW -> list (list Z)) (sw_crop : SW -> pslice -> pslice -> SW)
+    (edge_lonlats : SW -> Z -> E * E) (hstack : E -> E) (hits : P -> P -> bool) (sw0 : SW) (e0 : E) (p0 : P)
+    (sw : SW) (poly : P) (polys : list P),
+  exists bboxes, value_of (imp_chunk_bboxes sw_chunks sw_crop edge_lonlats hstack sw0 e0 sw) = COk bboxes /\
+    map snd bboxes = chunk_boxes (sw_chunks sw) /\
+    value_of (imp_swath_slices_from_polygon hits p0 poly (combine polys (map snd bboxes)))
+    = match swath_slices (sw_chunks sw) (map (fun p => hits p poly) polys) with Some r => COk r | None => CRaised end.
+Proof. exact @swath_code_is_model. Qed.
+Print Assumptions C11_swath_code_is_model.
+Example C11_swath_code_ex :
+  value_of (imp_swath_slices_from_polygon (fun p _ : bool => p) false true
+              (combine [false; true; false; true] (chunk_boxes [[3; 3]; [4; 2]]%Z)))
+  = COk (mk_slice 3 7, mk_slice 0 7).
+Proof. vm_compute. reflexivity. Qed.
